@@ -227,6 +227,7 @@ def run(ctx):
     typedefs_peeled_before_taking_apart(ctx)
     error_branches_of_actions_leave_a_value(ctx)
     class_hierarchy_is_acyclic(ctx)
+    lookup_results_are_nullable(ctx)
     containment_recursion(ctx)
     construction_stacks(ctx)
     lexer_restore_order(ctx)
@@ -1830,3 +1831,145 @@ def class_hierarchy_is_acyclic(ctx):
             why = "`$$ = %s` only where %s(%s, ...) was false, or %s was set to nullptr" % (r.get("n"), sorted(pred_names)[0].split("::")[-1], r.get("n"), r.get("n"))
         ctx.ob("R15.24", "class_derivation_name:%s|cycle-refused" % rhs.replace(" ", "_"), ok, "src/cppparser/cppBison.yxx (case %d)" % cs["v"], why)
     ctx.floor("R15.24", "class_derivation_name actions that take their value from a name", n_named, 2)
+
+
+NULLABLE_LOOKUPS = {
+    "CPPIdentifier::find_symbol", "CPPIdentifier::find_type", "CPPIdentifier::find_template", "CPPIdentifier::find_scope", "CPPIdentifier::get_scope",
+    "CPPScope::find_symbol", "CPPScope::find_type", "CPPScope::find_template", "CPPScope::find_scope",
+    "CPPDeclaration::get_template_scope",
+}
+# a predicate of the receiver that is, by its one-line body, `<the nullable member> != nullptr`
+NONNULL_WITNESS = {"CPPDeclaration::get_template_scope": "is_template"}
+
+
+def _deref_base(x):
+    if x.get("k") == "mem" and x.get("arrow"):
+        return strip_casts(peel(x.get("b")))
+    if x.get("k") == "call" and "this" in x and x.get("arrow", True):
+        return strip_casts(peel(x["this"]))
+    return None
+
+
+def lookup_results_are_nullable(ctx):
+    """R15.25: every name lookup of the parser (find_symbol/find_type/find_template/find_scope/get_scope) answers nullptr
+    for a name that names nothing, and get_template_scope() is null for everything that is not a template - all of which
+    input decides.  The answer may be dereferenced - in the same function, or by a callee that dereferences the
+    parameter it arrives in without a test of its own - only behind evidence that it is not null: a test of the same
+    local / the same call expression, or (for get_template_scope) `is_template()` of the same receiver.  Asserts are not
+    evidence: the analysis is done with NDEBUG, as the tools are built.
+    (F-C15v: `Outer<int>::In<char>` - member template of an instantiated class, no template scope - SIGSEGV in
+    nested_parse_template_instantiation; F-C15w: find_type() of a templated name that names nothing.)"""
+    db = ctx.db
+    ctx.rule("R15.25", "a result of find_symbol/find_type/find_template/find_scope/get_scope/get_template_scope is dereferenced (directly, through a once-assigned local, or by the callee it is passed to) only behind a non-null test of the same thing")
+    # the witness predicates are what the table says
+    for acc, wit in NONNULL_WITNESS.items():
+        cls = acc.split("::")[0]
+        ws = [g for g in db.functions if g.name == "%s::%s" % (cls, wit)]
+        ok = False
+        for g in ws:
+            rets = [r for r in g.walk() if r.get("k") == "ret"]
+            if len(rets) == 1:
+                ca = G.cmp_atom(rets[0].get("e"))
+                ok = bool(ca) and ca[0] == "!=" and any((field_of(strip_casts(peel(z))) or "").startswith(cls + "::_") for z in ca[1:] if z is not None) and \
+                    any((strip_casts(peel(z)) or {}).get("k") == "nullp" for z in ca[1:] if z is not None)
+        ctx.ob("R15.25", "%s::%s|is-the-non-null-test" % (cls, wit), ok, ws[0].loc() if ws else "src", "%s() returns `<member> != nullptr`" % wit)
+    byname = {}
+    for g in db.functions:
+        byname.setdefault(g.name, []).append(g)
+
+    def param_deref_unguarded(g, idx):
+        ps = g.params or []
+        if idx >= len(ps):
+            return []
+        pd = ps[idx].get("d")
+        e = G.edges_where(g, G.local_is_null(pd, null=False)) + G.edges_where(g, G.local_true(pd))
+        return [x for x in g.walk() if (local_ref(_deref_base(x)) or {}).get("d") == pd and _deref_base(x) is not None and not G.gated(g, x, e)]
+    n = n_arg = 0
+    for f in db.functions:
+        if "bison" in f.file or not any(d in f.file for d in ("/cppparser/", "/interrogate/")):
+            continue
+        defs, cnt = {}, {}
+        for y in f.walk():
+            if y.get("k") == "decls":
+                for dd in y["d"]:
+                    cnt[dd["d"]] = cnt.get(dd["d"], 0) + 1
+                    i0 = strip_casts(peel(dd.get("init"))) if dd.get("init") is not None else None
+                    if i0 is not None and i0.get("k") == "call" and i0.get("f") in NULLABLE_LOOKUPS:
+                        defs[dd["d"]] = i0
+            t = assigned_target(y)
+            if t:
+                r = local_ref(t[0])
+                if r is not None:
+                    cnt[r["d"]] = cnt.get(r["d"], 0) + 1
+                    v = strip_casts(peel(t[1]))
+                    if v is not None and v.get("k") == "call" and v.get("f") in NULLABLE_LOOKUPS:
+                        defs[r["d"]] = v
+        single = {d: v for d, v in defs.items() if cnt.get(d, 0) == 1}
+
+        def evidence(call, local_d=None):
+            key = _norm(show(call))
+            recv = _norm(show(call.get("this"))) if call.get("this") is not None else "this"
+            wit = NONNULL_WITNESS.get(call.get("f"))
+
+            def holds(atom, truth):
+                a = strip_casts(peel(atom)) if atom is not None else None
+                c = G.cmp_atom(atom)
+                if c:
+                    op, u, v = c
+                    op = op if truth else G.NEG[op]
+                    for p_, q_ in ((u, v), (v, u)):
+                        pp = strip_casts(peel(p_)) if p_ is not None else None
+                        if pp is not None and q_ is not None and (strip_casts(peel(q_)) or {}).get("k") == "nullp":
+                            if (pp.get("k") == "call" and _norm(show(pp)) == key) or (local_d is not None and (local_ref(pp) or {}).get("d") == local_d):
+                                return op == "!="
+                    return False
+                if a is None:
+                    return False
+                if a.get("k") == "call" and _norm(show(a)) == key:
+                    return truth
+                if local_d is not None and (local_ref(a) or {}).get("d") == local_d:
+                    return truth
+                if wit and a.get("k") == "call" and callee_short(a) == wit and (_norm(show(a.get("this"))) if a.get("this") is not None else "this") == recv:
+                    return truth
+                return False
+            return G.edges_where(f, holds)
+        for x in f.walk():
+            b = _deref_base(x)
+            if b is None:
+                continue
+            call, ld = None, None
+            if b.get("k") == "call" and b.get("f") in NULLABLE_LOOKUPS:
+                call = b
+            else:
+                r = local_ref(b)
+                if r is not None and r.get("d") in single:
+                    call, ld = single[r["d"]], r["d"]
+            if call is None:
+                continue
+            n += 1
+            ok = G.gated(f, x, evidence(call, ld))
+            ctx.ob("R15.25", "%s|%s|deref-behind-non-null" % (f.name, _norm(show(x))[:60]), ok, f.loc(x),
+                   "`%s` is %sbehind evidence that %s is not null" % (show(x)[:50], "" if ok else "NOT ", show(call)[:40]))
+        for c in f.walk():
+            if c.get("k") != "call":
+                continue
+            for i, a in enumerate(c.get("a") or []):
+                a0 = strip_casts(peel(a))
+                call, ld = None, None
+                if a0 is not None and a0.get("k") == "call" and a0.get("f") in NULLABLE_LOOKUPS:
+                    call = a0
+                else:
+                    r = local_ref(a0) if a0 is not None else None
+                    if r is not None and r.get("d") in single:
+                        call, ld = single[r["d"]], r["d"]
+                if call is None:
+                    continue
+                callees = byname.get(c.get("f"), [])
+                if not callees or not any(param_deref_unguarded(g, i) for g in callees):
+                    continue
+                n_arg += 1
+                ok = G.gated(f, c, evidence(call, ld))
+                ctx.ob("R15.25", "%s|%s(#%d=%s)|callee-dereferences-it" % (f.name, callee_short(c), i, _norm(show(call))[:40]), ok, f.loc(c),
+                       "%s() dereferences this parameter without a test of its own; the call is %sbehind evidence that %s is not null" % (callee_short(c), "" if ok else "NOT ", show(call)[:40]))
+    ctx.floor("R15.25", "dereferences of lookup results", n, 30)
+    ctx.floor("R15.25", "lookup results passed to a callee that dereferences them", n_arg, 2)
